@@ -253,6 +253,33 @@ func (b *Batch) Run(channel func(srv server.ServerView) transport.Channel) *Batc
 	return obs
 }
 
+// RunPhases sends the same batch to ONE server several times; before each request `phase` changes the world
+// (e.g. revokes a delegation). Returns one (observation, rendered case) per phase: what the server did THEN
+// must be what the model says for the world as it was THEN — a server that remembers an earlier verdict is wrong.
+func (b *Batch) RunPhases(phases []func()) (obsList []*BatchObs, rendered []string) {
+	first := &BatchObs{}
+	srv, err := b.newServer(first)
+	if err != nil {
+		first.ExecErr = "server: " + err.Error()
+		return []*BatchObs{first}, nil
+	}
+	for i, ph := range phases {
+		obs := first
+		if i > 0 {
+			obs = &BatchObs{}
+			var rmu sync.Mutex
+			currentBatch.Store(&batchRun{obs: obs, rmu: &rmu})
+		}
+		ph()
+		if p := recovered(func() { b.runOn(srv, b.Invs, obs) }); p != nil {
+			obs.Panic = fmt.Sprint(p)
+		}
+		obsList = append(obsList, obs)
+		rendered = append(rendered, b.Coq(obs))
+	}
+	return obsList, rendered
+}
+
 // RunConcurrent sends several requests (groups of invocation names) to ONE server at the same time.
 // Handler calls are attributed to the request that carries the invocation.
 func (b *Batch) RunConcurrent(groups [][]string, channel func(srv server.ServerView) transport.Channel) []*BatchObs {
